@@ -40,7 +40,9 @@ CFG = {
     "C01": dict(pkg="core", test="^TestC01", shards=(8, 16), checks=(8000, 40000)),
     "C02": dict(pkg="core", test="^TestC02$", shards=(1, 1), checks=(1, 1)),
     "C03": dict(pkg="core", test="^TestC03$", shards=(1, 1), checks=(1, 1)),
+    "C04": dict(pkg="core", test="^TestC04$", shards=(8, 16), checks=(600, 12000)),
     "C05": dict(pkg="core", test="^TestC05", shards=(8, 16), checks=(8000, 40000)),
+    "C11": dict(pkg="core", test="^TestC11$", shards=(8, 16), checks=(2500, 60000)),
     "C14": dict(pkg="core", test="^TestC14", shards=(4, 16), checks=(1000, 20000)),
     "C16": dict(pkg="core", test="^TestC16$", shards=(1, 1), checks=(1, 1)),
 }
